@@ -379,7 +379,7 @@ def verify (root : Digest) (leaves : List (Nat × Digest)) (size : Nat) (proof :
 /-- what `verify_mmr_proof` reads of a header -/
 structure Hdr where
   number : Nat
-  hash : H
+  hash : Nat              -- `header.hash()`: blake2b of the header, an atom of the term algebra
   difficulty : Nat        -- `compact_to_difficulty(compact_target)`
   epoch : Nat
   timestamp : Nat
@@ -388,7 +388,7 @@ structure Hdr where
 
 /-- `HeaderView::digest` -/
 def Hdr.digest (h : Hdr) : Digest :=
-  { ch := h.hash, td := h.difficulty, sN := h.number, eN := h.number, sE := h.epoch, eE := h.epoch,
+  { ch := .atom h.hash, td := h.difficulty, sN := h.number, eN := h.number, sE := h.epoch, eE := h.epoch,
     sT := h.timestamp, eT := h.timestamp, sC := h.compact, eC := h.compact }
 
 def MAX_PROVABLE : Nat := U64_MAX / 4
@@ -471,8 +471,8 @@ def chunks6 : Nat → List Nat → List (List Nat)
   | 0, _ => []
   | n + 1, l => l.take 6 :: chunks6 n (l.drop 6)
 
-def hdrOf (t : Table) : List Nat → Option Hdr
-  | [n, h, d, e, ts, c] => some ⟨n, resolveH 80 t h, d, e, ts, c⟩
+def hdrOf (_t : Table) : List Nat → Option Hdr
+  | [n, h, d, e, ts, c] => some ⟨n, h, d, e, ts, c⟩
   | _ => none
 
 def showR : R Bool → String
